@@ -323,3 +323,130 @@ Proof.
     + apply andb_true_iff in H. destruct H as [_ H]. eapply IH. exact H.
 Qed.
 End Gates.
+
+(* ---------- the path that the code takes (unitary._build_qr_circuit): always move the lowest differing qubit ---------- *)
+Definition diffs (n : nat) (col row : asg) : list nat := filter (fun q => xorb (get col q) (get row q)) (seq 0 n).
+Fixpoint gray (ds : list nat) (col row : asg) : list step * nat * asg :=
+  match ds with
+  | [] => ([], 0, col)
+  | m :: ds' =>
+      match ds' with
+      | [] => ([], m, col)
+      | _ :: _ =>
+          let r := if get row m then gray ds' (upd col m true) row else gray ds' col (upd row m true) in
+          ((m, if get row m then col else row) :: fst (fst r), snd (fst r), snd r)
+      end
+  end.
+
+Definition Dspec (n : nat) (ds : list nat) (col row : asg) : Prop :=
+  NoDup ds /\ (forall q, In q ds <-> q < n /\ get col q <> get row q).
+
+Lemma diffs_spec n col row : Dspec n (diffs n col row) col row.
+Proof.
+  unfold Dspec, diffs. split.
+  - apply NoDup_filter. apply seq_NoDup.
+  - intros q. rewrite filter_In, in_seq. split.
+    + intros [H1 H2]. split. lia. destruct (get col q), (get row q); cbn in H2; congruence.
+    + intros [H1 H2]. split. lia. destruct (get col q), (get row q); cbn; congruence.
+Qed.
+
+Lemma agree_ex_refl n m p : agree_ex n m p p = true.
+Proof. apply agree_ex_spec. reflexivity. Qed.
+Lemma tau_self n m p : tau n m p p = flipq m p.
+Proof. unfold tau. now rewrite agree_ex_refl. Qed.
+
+Lemma gray_ok n : forall ds col row, ds <> [] -> Dspec n ds col row ->
+  get col (last ds 0) = false -> get row (last ds 0) = true ->
+  path_ok n (fst (fst (gray ds col row))) (snd (fst (gray ds col row))) (snd (gray ds col row)) col row = true.
+Proof.
+  induction ds as [|m ds IH]; intros col row Hne [Hnd Hin] Hc Hr. congruence.
+  destruct ds as [|m2 ds].
+  - (* one differing qubit left *)
+    cbn [gray fst snd path_ok last] in *.
+    assert (Hm : m < n) by (apply (Hin m); now left).
+    rewrite (proj2 (Nat.ltb_lt m n) Hm), agree_ex_refl, Hc, Hr. cbn [andb negb].
+    rewrite !andb_true_r. apply agree_ex_spec. intros q Hq Hqm.
+    destruct (bool_dec_eq (get row q) (get col q)) as [E|E]; auto.
+    exfalso. assert (In q [m]) by (apply Hin; split; auto). cbn in H. destruct H; auto.
+  - assert (Hm : m < n) by (apply (Hin m); now left).
+    assert (Hm2 : m2 < n /\ get col m2 <> get row m2) by (apply (Hin m2); right; now left).
+    assert (Hmm2 : m <> m2).
+    { inversion Hnd as [|x l Hx Hl]; subst. intros ->. apply Hx. now left. }
+    assert (Hdm : get col m <> get row m) by (apply (Hin m); now left).
+    assert (Hlast : last (m :: m2 :: ds) 0 = last (m2 :: ds) 0) by reflexivity.
+    assert (Hlm : last (m2 :: ds) 0 <> m).
+    { inversion Hnd as [|x l Hx Hl]; subst. intros E. apply Hx. rewrite <- E. apply (@exists_last _ (m2 :: ds)) in Hne || idtac.
+      clear - E. assert (X : forall (l : list nat) a, In (last (a :: l) 0) (a :: l)).
+      { induction l as [|b l IHl]; intros a. now left. right. apply (IHl b). }
+      apply X. }
+    cbn [gray]. destruct (get row m) eqn:Erm.
+    + (* row has 1, column has 0: the column state moves *)
+      assert (Ecm : get col m = false) by (destruct (get col m); congruence).
+      cbn [fst snd path_ok]. rewrite (proj2 (Nat.ltb_lt m n) Hm). cbn [andb].
+      assert (T1 : tau n m col col = upd col m true).
+      { rewrite tau_self. unfold flipq. now rewrite Ecm. }
+      assert (T2 : tau n m col row = row).
+      { unfold tau. destruct (agree_ex n m col row) eqn:E; auto. rewrite agree_ex_spec in E.
+        exfalso. apply (proj2 Hm2). symmetry. apply E; [apply Hm2 | auto]. }
+      rewrite T1, T2. apply IH.
+      * discriminate.
+      * split. now inversion Hnd.
+        intros q. split.
+        -- intros Hq. assert (Hq' : In q (m :: m2 :: ds)) by now right.
+           apply Hin in Hq'. destruct Hq' as [Hqn Hqd]. split; auto.
+           assert (q <> m). { inversion Hnd as [|x l Hx Hl]; subst. intros ->. now apply Hx. }
+           now rewrite get_upd_other.
+        -- intros [Hqn Hqd]. destruct (Nat.eq_dec q m) as [->|Hqm].
+           ++ rewrite get_upd_same, Erm in Hqd. congruence.
+           ++ rewrite get_upd_other in Hqd by auto.
+              assert (Hq' : In q (m :: m2 :: ds)) by (apply Hin; auto). destruct Hq'; [congruence | auto].
+      * rewrite get_upd_other by auto. now rewrite <- Hlast.
+      * now rewrite <- Hlast.
+    + (* row has 0, column has 1: the row state moves *)
+      assert (Ecm : get col m = true) by (destruct (get col m); congruence).
+      cbn [fst snd path_ok]. rewrite (proj2 (Nat.ltb_lt m n) Hm). cbn [andb].
+      assert (T1 : tau n m row row = upd row m true).
+      { rewrite tau_self. unfold flipq. now rewrite Erm. }
+      assert (T2 : tau n m row col = col).
+      { unfold tau. destruct (agree_ex n m row col) eqn:E; auto. rewrite agree_ex_spec in E.
+        exfalso. apply (proj2 Hm2). apply E; [apply Hm2 | auto]. }
+      rewrite T1, T2. apply IH.
+      * discriminate.
+      * split. now inversion Hnd.
+        intros q. split.
+        -- intros Hq. assert (Hq' : In q (m :: m2 :: ds)) by now right.
+           apply Hin in Hq'. destruct Hq' as [Hqn Hqd]. split; auto.
+           assert (q <> m). { inversion Hnd as [|x l Hx Hl]; subst. intros ->. now apply Hx. }
+           now rewrite get_upd_other.
+        -- intros [Hqn Hqd]. destruct (Nat.eq_dec q m) as [->|Hqm].
+           ++ rewrite get_upd_same, Ecm in Hqd. congruence.
+           ++ rewrite get_upd_other in Hqd by auto.
+              assert (Hq' : In q (m :: m2 :: ds)) by (apply Hin; auto). destruct Hq'; [congruence | auto].
+      * now rewrite <- Hlast.
+      * rewrite get_upd_other by auto. now rewrite <- Hlast.
+Qed.
+
+(* for every pair of distinct basis states of the register, column state below the row state at the highest differing qubit *)
+Theorem gray_path_ok n col row : diffs n col row <> [] ->
+  get col (last (diffs n col row) 0) = false -> get row (last (diffs n col row) 0) = true ->
+  let r := gray (diffs n col row) col row in
+  path_ok n (fst (fst r)) (snd (fst r)) (snd r) col row = true.
+Proof. intros H1 H2 H3. apply gray_ok; auto. apply diffs_spec. Qed.
+
+(* the whole block from the two basis states alone *)
+Definition qr_block (n : nat) (col row : asg) : list mg :=
+  let r := gray (diffs n col row) col row in blockg n (fst (fst r)) (snd (fst r)) (snd r).
+Definition qr_pre (n : nat) (col row : asg) : bool :=
+  match diffs n col row with
+  | [] => false
+  | _ :: _ => negb (get col (last (diffs n col row) 0)) && get row (last (diffs n col row) 0)
+  end.
+Theorem qr_block_two_level (M : nat -> mat2) n col row psi : M 0 = Xm -> qr_pre n col row = true ->
+  mrun M (qr_block n col row) psi = two_level n col row (M 1) psi.
+Proof.
+  intros M0 H. unfold qr_pre in H. unfold qr_block.
+  apply (blockg_two_level M M0). apply gray_path_ok.
+  - destruct (diffs n col row); [discriminate | discriminate].
+  - destruct (diffs n col row) eqn:E; [discriminate|]. apply andb_true_iff in H. now apply negb_true_iff.
+  - destruct (diffs n col row) eqn:E; [discriminate|]. apply andb_true_iff in H. tauto.
+Qed.
